@@ -45,7 +45,7 @@ Separate Extraction
   (* command-line tools (C05) *)
   Cli.parse_main Cli.parse_wrapper Cli.exec Cli.iccma_instance Cli.apx_instance Cli.problems_21
   Cli.read_problem_string Cli.wrapper_argv Cli.run_script Cli.parse_answer Cli.beqb Store.new_attack
+  (* dynamic solvers *)
+  Dynamic.dyn_new Dynamic.dyn_update Dynamic.dyn_query
   (* (new roots go above this line; the terminating period stays alone on the next line) *)
 .
-  (* dynamic solvers *)
-  Dynamic.dyn_new Dynamic.dyn_update Dynamic.dyn_query.
